@@ -443,6 +443,8 @@ func coqPlug(p WiPlug) string {
 		return fmt.Sprintf("(WSizeLimit %d %d)", p.MaxReq, p.MaxResp)
 	case "gzip":
 		return "WGzip"
+	case "request-id":
+		return "WReqId"
 	}
 	return "WLogging"
 }
@@ -624,7 +626,10 @@ func genWiCfg(g *Rng) WiCfg {
 	n := []int{0, 0, 1, 1, 2, 2, 3, 4, 5}[g.Intn(9)]
 	hcount := 0
 	for i := 0; i < n; i++ {
-		switch g.Intn(6) {
+		switch g.Intn(7) {
+		case 6:
+			// the tutorial plugin; together with the ID middleware it must not produce a second ID
+			c.Chain = append(c.Chain, WiPlug{Name: "request-id"})
 		case 0:
 			c.Chain = append(c.Chain, WiPlug{Name: "logging"})
 		case 1, 2:
